@@ -174,7 +174,7 @@ def run_case(ctx, cls_name, ans, student, xs, ys, es, ss, tolerance, failable, c
     if ctx.rng.random() < 0.4:
         pool = [('suppress_warnings', True), ('wrong_msg', 'nope'), ('forbidden_strings', ['zzz', 'x*x*x*x']), ('forbidden_message', 'F')]
         if cls_name != 'NumericalGrader':
-            pool += [('metric_suffixes', True), ('blacklist', ['arccos', 'floor']), ('whitelist', ['abs', 'sqrt', 'sin', 'cos', 'exp']),
+            pool += [('metric_suffixes', True), ('blacklist', ['arccos', 'floor']), ('whitelist', ['abs', 'sqrt', 'sin', 'cos', 'exp', 're', 'im', 'conj']),
                      ('user_constants', {'unusedc': 4.2}), ('user_functions', {'unusedf': abs}), ('allow_inf', True),
                      ('required_functions', [])]
         for k_, v_ in ctx.rng.sample(pool, ctx.rng.randint(1, 3)):
@@ -233,6 +233,11 @@ def scripts(rng, n, negatives=0):
     for k in rng.sample(range(n), negatives):
         xs[k] = -xs[k]
     ys = [round(rng.uniform(0.5, 3.0), 3) for _ in range(n)]
+    if rng.random() < 0.15:
+        # samples need not be Python floats: Python ints and numpy scalar types are numbers too (x^-1, 1/x, x^0.5 on them)
+        k = rng.randrange(n)
+        sign = -1 if xs[k] < 0 else 1
+        xs[k] = rng.choice([int, np.int64, np.float64, np.int32])(sign * rng.randint(2, 4))
     return xs, ys
 
 
@@ -305,9 +310,11 @@ def run_branches(ctx):
 def run_rewrites(ctx):
     """Bit-exact rewrites must earn full credit even at tolerance 0; rounding-changing ones at 1e-9 rel."""
     rng = ctx.rng
-    exact = [('x^2+1', '1+x^2'), ('x^2+1', ' ( x ^ 2 ) + 1 '), ('x*y+2', 'y*x+2'), ('x*y+2', '2+y*x'), ('3*x-y', '(3*x-y)*1'),
+    exact = [('x^2+1', 'x^2+1+0*i'), ('x^2+1', 're(x^2+1)+0*im(x)'), ('x*y+2', 'conj(x*y+2)'),
+             ('x^2+1', '1+x^2'), ('x^2+1', ' ( x ^ 2 ) + 1 '), ('x*y+2', 'y*x+2'), ('x*y+2', '2+y*x'), ('3*x-y', '(3*x-y)*1'),
              ('3*x-y', '3*x-y+0'), ('x*y+2', '((x)*(y))+(2)'), ('x^2+1', 'x^2+1+0*y'), ('3*x-y', '-y+3*x'), ('x+i*y', 'i*y+x')]
-    loose = [('x^2+1', '(x+1)^2-2*x'), ('3*x-y', 'x+x+x-y'), ('x*y+2', '(x+1)*y-y+2'), ('x^2+1', 'x*x+1'), ('3*x-y', '3*(x-y/3)')]
+    loose = [('x^2+1', '(x+i)*(x-i)'), ('3*x-y', '(3*x-y+i)-i'), ('x*y+2', 'x^-1*x^2*y+2'), ('x^2+1', '(x^0.5)^4+1'),
+             ('x^2+1', '(x+1)^2-2*x'), ('3*x-y', 'x+x+x-y'), ('x*y+2', '(x+1)*y-y+2'), ('x^2+1', 'x*x+1'), ('3*x-y', '3*(x-y/3)')]
     fe = {'x^2+1': lambda x, y: x * x + 1, 'x*y+2': lambda x, y: x * y + 2, '3*x-y': lambda x, y: 3 * x - y,
           'x+i*y': lambda x, y: complex(x, y)}
     for i in range(ctx.n(2400, 120000)):
